@@ -422,7 +422,6 @@ package jmespath
 // ---------------------------------------------------------------------------
 // interpreter.go — Execute on JSON data (C05 C11 C16 C06 C12 C13; functional clauses are added per node type)
 
-
 //@ func (*functionCaller).CallFunction
 //@   props C05,C10
 //@   ghost bound int
